@@ -1,7 +1,6 @@
 package indexsim
 
 import (
-	"verif/engines/knobs"
 	"bytes"
 	"context"
 	"encoding/json"
@@ -12,6 +11,7 @@ import (
 	"strings"
 	"sync"
 	"time"
+	"verif/engines/knobs"
 
 	"perkeep.org/pkg/blob"
 	"perkeep.org/pkg/index"
